@@ -117,7 +117,7 @@ def run_case(case):
         # replay the prefix on a fresh base
         obj = copy.deepcopy(base)
         for op in case["prefix"]:
-            ok = _step(rep, obj, op, case["prefix"], cls)
+            ok = _step(rep, obj, op, case["prefix"], cls, name)
             if ok is not True:
                 return rep
         seen = {e1.canon(obj)}
@@ -133,7 +133,7 @@ def run_case(case):
             for hist, o in frontier:
                 for op in ops:
                     c = copy.deepcopy(o)
-                    ok = _step(rep, c, op, hist + (op,), cls)
+                    ok = _step(rep, c, op, hist + (op,), cls, name)
                     if ok is not True:
                         continue
                     k = e1.canon(c)
@@ -167,7 +167,7 @@ def run_case(case):
     return rep
 
 
-def _step(rep, obj, op, hist, cls):
+def _step(rep, obj, op, hist, cls, base_name):
     """Apply op.  True = new state; False = raised (checked atomic) or pruned."""
     if op.startswith("set:") or op.startswith("core:set:"):
         # the harness reads the current value to compute the target; do that read before the snapshot, so
@@ -186,7 +186,7 @@ def _step(rep, obj, op, hist, cls):
         # fields that existed before must be bit-identical; private memo fields may have appeared
         after = e1.exact_state_on(obj, tree)
         if after != before:
-            rep.violation("atomicity", cls, op.split("*")[0].split("=")[0], "raise-not-atomic", {"base": None, "prefix": list(hist), "depth": len(hist)}, "%s raised %s but changed the object" % (op, type(ex).__name__))
+            rep.violation("atomicity", cls, op.split("*")[0].split("=")[0], "raise-not-atomic", {"base": base_name, "prefix": list(hist), "depth": len(hist)}, "%s raised %s but changed the object" % (op, type(ex).__name__))
         else:
             rep.ok("raised-and-unchanged:" + type(ex).__name__)
         return False
